@@ -465,12 +465,133 @@ def auto_props_after_cfg():
     return 'bool', cbool(after)
 
 
+# ------------------------------------------------------------------ start-up order, description built from the live objects
+SV = 'frappy/server.py'
+MX = 'frappy/mixins.py'
+EN = 'frappy/lib/enum.py'
+
+
+def _self_stores(func):
+    """names of attributes of self the function assigns / deletes, plus setattr / __dict__ tricks"""
+    res = []
+    for n in ast.walk(func):
+        if isinstance(n, ast.Attribute) and isinstance(n.ctx, (ast.Store, ast.Del)) and isinstance(n.value, ast.Name) \
+                and n.value.id == 'self':
+            res.append(n.attr)
+        if isinstance(n, ast.Call) and _norm(n.func) in ('setattr', 'delattr', 'vars', 'object.__setattr__'):
+            res.append('<setattr>')
+        if isinstance(n, ast.Attribute) and n.attr == '__dict__':
+            res.append('<__dict__>')
+        if isinstance(n, (ast.Global, ast.Nonlocal)):
+            res.append('<global>')
+    return res
+
+
+def description_built_per_call():
+    """SecNode.get_descriptive_data / export_accessibles build their result on every call from the live module objects:
+    undecorated methods with the plain arguments (self, specifier) / (self, modulename), `modules = {}` is the only binding
+    of `modules` and stands at the top level of the function, the loop over self.export stands at the top level (not
+    under a condition), the only things read from self are export, get_module, export_accessibles, equipment_id,
+    nodeprops (no attribute that could hold an earlier result), nothing is stored on self, no global state;
+    export_accessibles reads self.export, self.get_module, self.log only and binds `res` to a fresh OrderedDict;
+    Dispatcher.handle_describe returns self.secnode.get_descriptive_data(specifier) itself"""
+    cls = find_class(parse(SN), 'SecNode')
+    g = find_func(cls, 'get_descriptive_data')
+    e = find_func(cls, 'export_accessibles')
+    ok = True
+    for f, args in ((g, ['self', 'specifier']), (e, ['self', 'modulename'])):
+        a = f.args
+        ok = ok and not f.decorator_list and [x.arg for x in a.args] == args and not a.defaults and not a.kwonlyargs \
+            and a.vararg is None and a.kwarg is None and not getattr(a, 'posonlyargs', [])
+        ok = ok and not _self_stores(f)
+    binds = [n for n in ast.walk(g) if isinstance(n, ast.Name) and n.id == 'modules' and isinstance(n.ctx, ast.Store)]
+    top = [n for n in g.body if isinstance(n, ast.Assign) and _norm(n) == 'modules={}']
+    ok = ok and len(binds) == 1 and len(top) == 1
+    loops = [n for n in g.body if isinstance(n, ast.For) and _norm(n.iter) == 'self.export']
+    ok = ok and len(loops) == 1 and len(list(walk_type(g, ast.For))) == 2     # + the loop over nodeprops
+    ok = ok and top and loops and top[0].lineno < loops[0].lineno
+    reads = {n.attr for n in ast.walk(g) if isinstance(n, ast.Attribute) and isinstance(n.value, ast.Name) and n.value.id == 'self'}
+    ok = ok and reads <= {'export', 'get_module', 'export_accessibles', 'equipment_id', 'nodeprops'}
+    reads_e = {n.attr for n in ast.walk(e) if isinstance(n, ast.Attribute) and isinstance(n.value, ast.Name) and n.value.id == 'self'}
+    ok = ok and reads_e <= {'export', 'get_module', 'log'}
+    rb = [n for n in ast.walk(e) if isinstance(n, ast.Name) and n.id == 'res' and isinstance(n.ctx, ast.Store)]
+    ok = ok and len(rb) == 1 and any(_norm(n) == 'res=OrderedDict()' for n in walk_type(e, ast.Assign))
+    h = _disp('handle_describe')
+    ok = ok and not h.decorator_list and len(h.body) == 1 and isinstance(h.body[0], ast.Return) \
+        and _norm(h.body[0].value) == "(DESCRIPTIONREPLY,specifieror'.',self.secnode.get_descriptive_data(specifier))"
+    return 'bool', cbool(bool(ok))
+
+
+def startup_order():
+    """Server._processCfg: self.secnode.create_modules() (all module objects are constructed), then
+    self.secnode.get_descriptive_data('') as an expression statement (it initialises the exported modules one by one, its
+    result is dropped), then `for modname in list(self.secnode.modules): self.secnode.get_module(modname)` (the others);
+    SecNode.get_module initialises a module once (`if modobj._isinitialized: return modobj`, earlyInit then initModule, flag
+    set afterwards); get_descriptive_data obtains each module with self.get_module(modulename) BEFORE describing it"""
+    f = find_func(find_class(parse(SV), 'Server'), '_processCfg')
+    lines = {}
+    for n in f.body:
+        s = _norm(n)
+        if isinstance(n, ast.Expr) and s == 'self.secnode.create_modules()':
+            lines.setdefault('create', n.lineno)
+        if isinstance(n, ast.Expr) and s == "self.secnode.get_descriptive_data('')":
+            lines.setdefault('describe', n.lineno)
+        if isinstance(n, ast.For) and _norm(n.iter) == 'list(self.secnode.modules)' and len(n.body) == 1 \
+                and _norm(n.body[0]) == 'self.secnode.get_module(modname)':
+            lines.setdefault('rest', n.lineno)
+    if set(lines) != {'create', 'describe', 'rest'}:
+        raise Shape('Server._processCfg: create_modules / get_descriptive_data / get_module loop not found at top level')
+    ok = lines['create'] < lines['describe'] < lines['rest']
+    calls = [c for c in walk_type(f, ast.Call) if _norm(c.func) == 'self.secnode.get_descriptive_data']
+    ok = ok and len(calls) == 1
+    cls = find_class(parse(SN), 'SecNode')
+    gm = find_func(cls, 'get_module')
+    st = [_norm(n) for n in _stmts(gm)]
+    ok = ok and any(isinstance(n, ast.If) and _norm(n.test) == 'modobj._isinitialized' and _norm(n.body[0]) == 'returnmodobj'
+                    for n in gm.body)
+    ok = ok and 'modobj.earlyInit()' in st and 'modobj.initModule()' in st and 'modobj._isinitialized=True' in st \
+        and st.index('modobj.earlyInit()') < st.index('modobj.initModule()') < st.index('modobj._isinitialized=True')
+    g = find_func(cls, 'get_descriptive_data')
+    loop = [n for n in g.body if isinstance(n, ast.For) and _norm(n.iter) == 'self.export']
+    ok = ok and len(loop) == 1 and _norm(loop[0].body[0]) == 'module=self.get_module(modulename)'
+    return 'bool', cbool(bool(ok))
+
+
+def register_input_extends_enum():
+    """mixins.HasOutputModule.initModule: `super().initModule()` then `if self.output_module:
+    self.output_module.register_input(self.name, self.deactivate_control)`; HasControlledBy.register_input replaces the
+    datatype of the Parameter object `controlled_by` of the INSTANCE by the enum extended with the controller's name
+    (value None = Enum takes max(values) + 1); the class-level enum is {'self': 0}"""
+    tree = parse(MX)
+    cb = find_class(tree, 'HasControlledBy')
+    om = find_class(tree, 'HasOutputModule')
+    reg = find_func(cb, 'register_input')
+    st = [_norm(n) for n in reg.body if not (isinstance(n, ast.Expr) and isinstance(n.value, ast.Constant))]
+    ok = [a.arg for a in reg.args.args] == ['self', 'name', 'deactivate_control']
+    ok = ok and st[-2:] == ["prev_enum=self.parameters['controlled_by'].datatype.export_datatype()['members']",
+                            "self.parameters['controlled_by'].datatype=EnumType(Enum(prev_enum,**{name:None}))"]
+    ok = ok and not any('controlled_by' in s for s in st[:-2])
+    decl = find_assign(cb, 'controlled_by')
+    ok = ok and "EnumType(members={'self':0})" in _norm(decl) and 'default=0' in _norm(decl)
+    ini = find_func(om, 'initModule')
+    st = [_norm(n) for n in ini.body if not (isinstance(n, ast.Expr) and isinstance(n.value, ast.Constant))]
+    ok = ok and st[0] == 'super().initModule()' and len(st) == 2 and isinstance(ini.body[-1], ast.If) \
+        and _norm(ini.body[-1].test) == 'self.output_module' and len(ini.body[-1].body) == 1 and not ini.body[-1].orelse \
+        and _norm(ini.body[-1].body[0]) == 'self.output_module.register_input(self.name,self.deactivate_control)'
+    att = find_assign(om, 'output_module')
+    ok = ok and _norm(att) == 'Attached(HasControlledBy,mandatory=False)'
+    enum_init = find_func(find_class(parse(EN), 'Enum'), '__init__')
+    ok = ok and any(isinstance(n, ast.If) and _norm(n.test) == 'visNone' and _norm(n.body[-1]) == 'v=max(valuesor[0])+1'
+                    for n in ast.walk(enum_init))
+    return 'bool', cbool(bool(ok))
+
+
 FACTS = [predefined_accessibles, secop_base_classes, interface_classes_limit, features_from_direct_feature_bases,
          fixexport_shape, add_accessible_registers_final_export, finish_calls_class_constant,
          finish_reexports_constant, main_unit_after_cfg_and_dollar_replace, export_properties_nondefault_rule,
          property_export_table, for_export_shapes, export_accessibles_shape, change_path_shape, read_path_shape,
          do_path_shape, activate_path_shape, announce_update_shape, access_wrappers_use_instance_datatype,
-         auto_props_after_cfg]
+         auto_props_after_cfg, description_built_per_call, startup_order, register_input_extends_enum]
 
 FINGERPRINTS = {
     'Accessible.fixExport': lambda: find_func(find_class(parse(P), 'Accessible'), 'fixExport'),
@@ -489,4 +610,7 @@ FINGERPRINTS = {
     'make_update': lambda: find_func(parse(DI), 'make_update'),
     'HasUnit.set_main_unit': lambda: find_func(find_class(parse(DT), 'HasUnit'), 'set_main_unit'),
     'HasAccessibles.__init_subclass__': _init_subclass,
+    'Server._processCfg': lambda: find_func(find_class(parse(SV), 'Server'), '_processCfg'),
+    'HasControlledBy.register_input': lambda: find_func(find_class(parse(MX), 'HasControlledBy'), 'register_input'),
+    'HasOutputModule.initModule': lambda: find_func(find_class(parse(MX), 'HasOutputModule'), 'initModule'),
 }
